@@ -53,8 +53,14 @@ var sharedPalette = func() [64]color.RGBA {
 		p[i] = color.RGBA{uint8(i * 3), uint8(i), uint8(i * 2), 0xff}
 	}
 	p[1] = color.RGBA{0x40, 0x20, 0x10, 0x80}
+	// two entries that are not valid premultiplied colours (a caller may hold such a palette)
+	p[5] = color.RGBA{0x80, 0x00, 0x00, 0x10}
+	p[40] = color.RGBA{0x02, 0x4a, 0x8a, 0x00}
 	return p
 }()
+
+// one transform list shared by every goroutine
+var sharedTransforms = []generate.Aff3{generate.Scale(2)}
 
 func hash(parts ...[]byte) uint64 {
 	h := fnv.New64a()
@@ -98,8 +104,14 @@ func runJob(j Job, inputs [][]byte) uint64 {
 		g.Reset(ivg.DefaultViewBox, ivg.DefaultPalette)
 		stops := []generate.GradientStop{{Offset: 0, Color: color.RGBA{0xff, 0, 0, 0xff}}, {Offset: 0.5, Color: color.NRGBA{0, 0xff, 0, 0x80}}, {Offset: 1, Color: color.Gray{uint8(j.Param)}}}
 		g.SetLinearGradient(-10, float32(j.Param%7), 10, 3, generate.GradientSpread(j.Param%4), stops)
+		g.SetTransform(sharedTransforms...)
+		err0 := g.SetPathData("M1 1h5v5H1z", 0)
 		g.SetTransform(generate.Scale(2), generate.Translate(-32, -32))
 		err := g.SetPathData("M4 4h20v20H4zm3 3l5,5-5 0z", uint8(j.Param%3))
+		g.SetTransform()
+		if err == nil {
+			err = err0
+		}
 		g.SetCircularGradient(0, 0, 5, float32(j.Param%5)+1, generate.GradientSpreadPad, stops[:2])
 		g.StartPath(0, -5, -5)
 		g.AbsArcTo(5, 5, 0, true, false, 5, 5)
@@ -242,6 +254,9 @@ func checkConcurrent(c Case) error {
 		if !bytes.Equal(inputs[i], copies[i]) {
 			return harness.Violatef("c18/input-modified", "shared input %d was modified", i)
 		}
+	}
+	if len(sharedTransforms) != 1 || sharedTransforms[0] != generate.Scale(2) {
+		return harness.Violatef("c18/transforms-modified", "the shared caller-supplied transform list was modified: %v", sharedTransforms)
 	}
 	if sharedPalette != palCopy {
 		return harness.Violatef("c18/palette-modified", "the shared caller-supplied palette was modified")
